@@ -30,6 +30,8 @@ for _once in [0]:
             continue
         if sp.get("skip"):
             continue
+        if os.environ.get("SWEEP_HAND") and sp.get("patch"):
+            continue  # SWEEP_HAND=1: only the hand-written in-memory edits of variants/benign/*.json
         overlay, stale = {}, False
         if sp.get("patch"):
             sys.path.insert(0, os.path.join(V, "tools"))
@@ -52,7 +54,7 @@ for _once in [0]:
         tmp = tempfile.NamedTemporaryFile("w", suffix=".json", delete=False)
         json.dump(overlay, tmp); tmp.close()
         env = dict(os.environ, GOFLAGS="-mod=mod", GOPROXY="off", GOSUMDB="off", GOTOOLCHAIN="local"); env.pop("GOWORK", None)
-        r = subprocess.run([os.path.join(V, "engine/slcheck"), "-repo", repo, "-verif", V, "-prop", "all", "-tier", "quick", "-no-evidence", "-overlay", tmp.name],
+        r = subprocess.run([os.path.join(V, "engine/slcheck"), "-repo", repo, "-verif", V, "-prop", os.environ.get("SWEEP_PROPS", "all"), "-tier", "quick", "-no-evidence", "-overlay", tmp.name],
                            env=env, stdout=subprocess.PIPE, stderr=subprocess.STDOUT, text=True)
         os.unlink(tmp.name)
         viol = [l.strip()[:200] for l in r.stdout.splitlines() if l.strip().startswith(("VIOLATION [", "CHECKER-CANNOT-DECIDE"))]
